@@ -363,14 +363,23 @@ pub fn late_switch(ctx: &Ctx) {
         let mut r = E57Reader::new(Dev::new(enc.bytes.clone())).map_err(|e| err_string(&e))?;
         let pc = r.pointclouds().remove(0);
         let mut it = r.pointcloud_simple(&pc).map_err(|e| err_string(&e))?;
-        it.normalize_intensity(setting);
-        it.normalize_color(setting);
+        // without a switch: the configuration the switched iterator ends up with
+        let (si, sc) = match switch_at {
+            Some(_) => (setting, setting),
+            None => (if attr == 0 { setting } else { !setting }, if attr == 0 { !setting } else { setting }),
+        };
+        it.normalize_intensity(si);
+        it.normalize_color(sc);
         it.intensity_to_color(false);
         let mut out = Vec::new();
         for k in 0..n + 1 {
             if Some(k) == switch_at {
-                it.normalize_intensity(!setting);
-                it.normalize_color(!setting);
+                // only the switch that concerns the attribute under test is touched
+                if attr == 0 {
+                    it.normalize_intensity(!setting);
+                } else {
+                    it.normalize_color(!setting);
+                }
             }
             match it.next() {
                 None => break,
